@@ -426,6 +426,31 @@ func dictObserve(seg segment.Segment, field string, a segment.Automaton, lo, hi 
 		}
 		out = append(out, sx.L(sx.S(e.Term), sx.N(e.Count)))
 	}
+	// two more iterations of the same Dictionary object, read alternately while a third is open:
+	// each must yield the full sequence on its own
+	if a == nil && lo == nil && hi == nil && len(out) > 1 {
+		i1, i2 := d.AutomatonIterator(nil, nil, nil), d.AutomatonIterator(nil, nil, nil)
+		for k := 0; k <= len(out); k++ {
+			e1, err1 := i1.Next()
+			if k == len(out)/2 {
+				d.AutomatonIterator(nil, []byte("b"), nil).Next() // a third one, started in between
+			}
+			e2, err2 := i2.Next()
+			if err1 != nil || err2 != nil {
+				return sx.V{}, 0, fmt.Sprintf("interleaved dictionary iterators: errors %v %v", err1, err2)
+			}
+			if k == len(out) {
+				if e1 != nil || e2 != nil {
+					return sx.V{}, 0, "interleaved dictionary iterators of one Dictionary yield extra entries"
+				}
+				break
+			}
+			want := string(out[k].L[0].B)
+			if e1 == nil || e2 == nil || e1.Term != want || e2.Term != want {
+				return sx.V{}, 0, fmt.Sprintf("two iterators obtained from one Dictionary and read alternately: entry %d is %v / %v, a single iteration yields %q", k, e1, e2, want)
+			}
+		}
+	}
 	have := map[string]bool{}
 	for _, t := range terms {
 		have[t] = true
